@@ -46,25 +46,30 @@ def tla_bool(b):
     return "TRUE" if b else "FALSE"
 
 
-def py_props(o):
-    """fallback evaluation of the properties on the REAL final state (used when a replay diverged)"""
+def py_props(o, s):
+    """the three properties evaluated on the REAL final state (used when a replay left the specified path)"""
     fin = o.get("final")
     if not fin:
         return {}
     script = o["script"]
-    res = {"c27": True, "c30": True}
+    res = {"c27": True, "c29": True, "c30": True}
     only_doc = all(m["kind"] in ("open", "change", "close") for m in script)
+    disk = s.get("disk", {})
+    late = set(s.get("late", []))
     for u in fin["vfs"]:
         doc = [m for m in script if m["uri"] == u and m["kind"] in ("open", "change", "close")]
-        if not doc:
-            continue
-        last = doc[-1]
-        is_open = last["kind"] != "close"
-        if only_doc:
+        last = doc[-1] if doc else None
+        is_open = bool(last) and last["kind"] != "close"
+        if last and only_doc:
             if is_open and not (fin["open"][u] == last["text"] and fin["vfs"][u] == last["text"]):
                 res["c27"] = False
             if not is_open and fin["open"][u] != "none":
                 res["c27"] = False
+        if s.get("hadReload"):
+            if is_open and fin["vfs"][u] != last["text"]:
+                res["c29"] = False
+            if not is_open and u not in late and u in disk and fin["vfs"][u] != disk[u]:
+                res["c29"] = False
         if is_open and fin["vfs"][u] != "absent" and fin["pub"][u] != fin["vfs"][u]:
             res["c30"] = False
         if fin["vfs"][u] == "absent" and fin["pub"][u] not in ("never", "empty"):
@@ -77,6 +82,7 @@ def run(ctx, prop):
     ctx.note("mined_inline", inline)
     key = prop.lower()
     total_sched = 0
+    ndiverged = [0]
     replayed = 0
     rnd = random.Random(ctx.seed)
     for name in PLAN[prop][ctx.tier]:
@@ -132,8 +138,9 @@ def run(ctx, prop):
                                   {"config": name, "constants": consts, "schedule": s, "real_final": o["final"],
                                    "confirmed_on_real_server": True})
             else:
+                ndiverged[0] += 1
                 ctx.divergence("%s sched %d: %s" % (name, o["sched"], json.dumps(o["diverged"])[:300]))
-                pv = py_props(o)
+                pv = py_props(o, s)
                 if key in pv and not pv[key]:
                     ctx.violation("%s/%s/%s/after-divergence" % (prop, name, kinds),
                                   {"config": name, "schedule": s, "replay": o})
@@ -142,8 +149,9 @@ def run(ctx, prop):
             ctx.sample({"config": name, "script": s["script"],
                         "schedule": [[h["a"], h.get("kind"), h.get("i"), h.get("lock"), h.get("ms")] for h in s["hist"]],
                         "final_state": s["hist"][-1]["st"]})
-    ndiv = len(ctx.divergences)
-    if replayed and ndiv * 20 > replayed:
+    ndiv = ndiverged[0]
+    ctx.note("replays_diverged", ndiv)
+    if replayed and ndiv * 20 > replayed and not ctx.violations:
         # the specification no longer explains the code: that is a finding about the MODEL, escalate as tool error
         raise vlib.ToolError("%d of %d replays diverged from LsSync.tla: the model no longer describes the code; first: %s" % (
             ndiv, replayed, ctx.divergences[0]))
